@@ -291,6 +291,41 @@ def run_case(case, ctx):
     sizes = _sizes(a)
     ncoord = len(P0[0])
 
+    # ---- equality stays an equivalence among objects some of which went through REJECTED requests: a copy b of a that was asked
+    # for something invalid (and refused), a, and a variant v of a with one control point moved.  Whatever b now is, == must be
+    # symmetric and transitive on {a, v, b}: b == a and b == v together with a != v would make it no equivalence at all
+    if sel(component='after_rejected'):
+        v = copy.deepcopy(a)
+        Pv = [list(p) for p in P0]
+        Pv[len(Pv) // 2][0] += 1.0
+        v.set_ctrlpts(Pv, *sizes)
+        bads = ['ctrlpts_too_few', 'knotvector_wrong_length', 'ctrlpts_wrong_dimension'] + (['weights_wrong_length'] if rat else [])
+        for bad in bads:
+            b = copy.deepcopy(a)
+            try:
+                if bad == 'ctrlpts_too_few':
+                    b.set_ctrlpts([list(p) for p in P0[:1]], *([1] * len(sizes)))
+                elif bad == 'knotvector_wrong_length':
+                    kv = _get_kvs(b)[0]
+                    _set_kv(b, 0, list(kv) + [kv[-1]])
+                elif bad == 'ctrlpts_wrong_dimension':
+                    b.set_ctrlpts([[0.0] for _ in P0], *sizes)
+                else:
+                    b.weights = [1.0] * (len(P0) - 1)
+            except Exception:
+                pass
+            rc = dict(case, only=dict(component='after_rejected'))
+            f = dict(f0, component='after_rejected', rejected=bad)
+            try:
+                ba, ab, bv, vb, av = (b == a), (a == b), (b == v), (v == b), (a == v)
+            except Exception as e:
+                ctx.check('C19.equivalence.after_rejected.comparable', False, rc, f, 'a boolean', repr(e))
+                continue
+            ctx.check('C19.equivalence.after_rejected.symmetric', bool(ba) == bool(ab) and bool(bv) == bool(vb), rc, f,
+                      'b == x agrees with x == b', [ba, ab, bv, vb])
+            ctx.check('C19.equivalence.after_rejected.transitive', not (ba and bv and not av), rc, f,
+                      'b == a and b == v imply a == v', dict(b_eq_a=ba, b_eq_v=bv, a_eq_v=av))
+
     # ---- every coordinate of every control point (rational: homogeneous coordinates; the last one is the weight)
     for i in range(len(P0)):
         for c in range(ncoord):
